@@ -102,8 +102,12 @@ func (w *World) harnessCall(fr *frame, fn *ssa.Function, args []value) *hres {
 		if k <= 0 {
 			panic(engineError{"vfChoice: k must be positive"})
 		}
-		t := w.newInput(argStr(args[0]), 8)
-		w.assume(fromTerm(tt.Cmp(OpUlt, t, tt.Const(uint64(k), 8))))
+		cw := uint8(8)
+		if k > 255 {
+			cw = 16 // selectors with more than 255 alternatives (k must stay < 65536)
+		}
+		t := w.newInput(argStr(args[0]), cw)
+		w.assume(fromTerm(tt.Cmp(OpUlt, t, tt.Const(uint64(k), cw))))
 		return &hres{w.concretize(t, k+1)}
 	case "vfLen":
 		lo, hi := argInt(args[1]), argInt(args[2])
